@@ -73,6 +73,8 @@ pub trait Hook: Sync + Send {
   fn before(&self, access: &Access) -> Decision;
   /// called after the access
   fn after(&self, access: &Access, outcome: &Outcome);
+  /// called when the backing memory is really being released (start of `Memory::unmount`)
+  fn unmount(&self, _base: usize, _cap: usize) {}
 }
 
 static HOOK: OnceLock<&'static dyn Hook> = OnceLock::new();
@@ -85,6 +87,14 @@ pub fn set_hook(hook: &'static dyn Hook) -> bool {
 #[inline]
 fn hook() -> Option<&'static dyn Hook> {
   HOOK.get().copied()
+}
+
+/// Reports the release of the backing memory to the hook.
+#[inline]
+pub(crate) fn on_unmount(base: usize, cap: usize) {
+  if let Some(h) = hook() {
+    h.unmount(base, cap);
+  }
 }
 
 /// Wrapper atomics with the API subset used by the crate.
